@@ -48,14 +48,26 @@ class RecFace(Face):
     def outer_type(wire):
         return rc.read_var(bytes(wire), 0, len(wire))[0]
 
+    _forms = 0
+
+    def buffer_form(self, wire):
+        """A transport hands the packet over in whatever buffer it received it in: immutable bytes (the stream faces), or a
+        bytearray / a writable view of one (datagram and custom transports that receive into their own buffer).  The octets are
+        the same; the buffer is not touched afterwards."""
+        RecFace._forms += 1
+        k = RecFace._forms % 4
+        if isinstance(wire, (bytearray, memoryview)) or k in (0, 1):
+            return wire
+        return bytearray(wire) if k == 2 else memoryview(bytearray(wire))
+
     def deliver_task(self, wire, typ=None):
         """What StreamFace/UdpFace do: spawn the callback as a task per packet."""
         if typ is None:
             typ = self.outer_type(wire)
-        return asyncio.ensure_future(self.callback(typ, wire))
+        return asyncio.ensure_future(self.callback(typ, self.buffer_form(wire)))
 
     async def deliver(self, wire, typ=None):
         """Awaited delivery: an exception escaping packet reception is seen by the caller."""
         if typ is None:
             typ = self.outer_type(wire)
-        await self.callback(typ, wire)
+        await self.callback(typ, self.buffer_form(wire))
